@@ -276,23 +276,30 @@ Record want := W {
   w_regions : amap rv;       (* regions saved and not deleted, whichever backend *)
   w_known : bool;            (* false after a crash / while unflushed saves exist in region-storage mode *)
   w_rs : bool;
-  w_deleted : list Z         (* ids deleted since they were last saved *)
+  w_deleted : list (Z * bool); (* ids deleted since they were last saved; true = the save was still unflushed *)
+  w_pending : list Z         (* region-storage mode: ids saved since the last explicit flush *)
 }.
-Definition winit : want := W [] [] [] [] true false [].
+Definition winit : want := W [] [] [] [] true false [] [].
+Definition del_sig (k : Z) (deleted : list (Z * bool)) : option string :=
+  match find (fun d => fst d =? k) deleted with
+  | Some (_, true) => Some "C17:region-storage:deleted-region-still-loaded"
+  | Some (_, false) => Some "C17:load:deleted-region-still-loaded"
+  | None => None
+  end.
 
 Fixpoint sorted_ids_b {V} (lo : Z) (l : list (Z * V)) : bool :=
   match l with [] => true | x :: r => (lo <=? fst x) && sorted_ids_b (fst x + 1) r end.
 
 (* compare a loaded list with the wanted content; both sorted by id *)
-Fixpoint diff_load (want_l got : list (Z * rv)) (deleted : list Z) : option string :=
+Fixpoint diff_load (want_l got : list (Z * rv)) (deleted : list (Z * bool)) : option string :=
   match want_l, got with
   | [], [] => None
   | (k, v) :: wr, [] => Some (if k =? max_id then "C17:load:max-id-never-loaded" else "C17:load:saved-region-missing")
-  | [], (k, _) :: _ => Some (if memZ k deleted then "C17:region-storage:deleted-region-still-loaded" else "C17:load:unsaved-region-loaded")
+  | [], (k, _) :: _ => Some (match del_sig k deleted with Some sg => sg | None => "C17:load:unsaved-region-loaded" end)
   | (k, v) :: wr, (k', v') :: gr =>
       if k =? k' then (if rv_eqb v v' then diff_load wr gr deleted else Some "C17:load:region-value-differs")
       else if k <? k' then Some (if k =? max_id then "C17:load:max-id-never-loaded" else "C17:load:saved-region-missing")
-      else Some (if memZ k' deleted then "C17:region-storage:deleted-region-still-loaded" else "C17:load:unsaved-region-loaded")
+      else Some (match del_sig k' deleted with Some sg => sg | None => "C17:load:unsaved-region-loaded" end)
   end.
 
 Fixpoint diff_stores (want_l : list (Z * Z)) (lw rw : amap Z) (got : list (Z * Z * Z * Z)) : option string :=
@@ -316,9 +323,9 @@ Fixpoint mon (w : want) (ops : list op) (obs_l : list obs) : option string :=
   match ops, obs_l with
   | o :: r, b :: br =>
       match o, b with
-      | OSaveStore id p, _ => mon (W (put (w_stores w) id p) (w_lw w) (w_rw w) (w_regions w) (w_known w) (w_rs w) (w_deleted w)) r br
-      | ODeleteStore id, _ => mon (W (del (w_stores w) id) (w_lw w) (w_rw w) (w_regions w) (w_known w) (w_rs w) (w_deleted w)) r br
-      | OSaveWeight id l rw, _ => mon (W (w_stores w) (put (w_lw w) id l) (put (w_rw w) id rw) (w_regions w) (w_known w) (w_rs w) (w_deleted w)) r br
+      | OSaveStore id p, _ => mon (W (put (w_stores w) id p) (w_lw w) (w_rw w) (w_regions w) (w_known w) (w_rs w) (w_deleted w) (w_pending w)) r br
+      | ODeleteStore id, _ => mon (W (del (w_stores w) id) (w_lw w) (w_rw w) (w_regions w) (w_known w) (w_rs w) (w_deleted w) (w_pending w)) r br
+      | OSaveWeight id l rw, _ => mon (W (w_stores w) (put (w_lw w) id l) (put (w_rw w) id rw) (w_regions w) (w_known w) (w_rs w) (w_deleted w) (w_pending w)) r br
       | OLoadStores, BStores st got =>
           match st with
           | RDone => match diff_stores (w_stores w) (w_lw w) (w_rw w) got with Some sg => Some sg | None => mon w r br end
@@ -327,14 +334,17 @@ Fixpoint mon (w : want) (ops : list op) (obs_l : list obs) : option string :=
       | OSaveRegion id v, _ =>
           mon (W (w_stores w) (w_lw w) (w_rw w) (put (w_regions w) id v)
                  (* in region-storage mode the save is only promised after the next flush *)
-                 (w_known w) (w_rs w) (filter (fun d => negb (d =? id)) (w_deleted w))) r br
+                 (w_known w) (w_rs w) (filter (fun d => negb (fst d =? id)) (w_deleted w))
+                 (if w_rs w then id :: w_pending w else w_pending w)) r br
       | ODeleteRegion id, _ =>
-          mon (W (w_stores w) (w_lw w) (w_rw w) (del (w_regions w) id) (w_known w) (w_rs w) (id :: w_deleted w)) r br
+          mon (W (w_stores w) (w_lw w) (w_rw w) (del (w_regions w) id) (w_known w) (w_rs w) ((id, memZ id (w_pending w)) :: w_deleted w) (w_pending w)) r br
       | OSwitch rs, _ =>
           (* the two backends hold different sets: what is wanted is no longer tracked *)
-          mon (W (w_stores w) (w_lw w) (w_rw w) (w_regions w) (if Bool.eqb rs (w_rs w) then w_known w else false) rs (w_deleted w)) r br
-      | OCrash, _ => mon (W (w_stores w) (w_lw w) (w_rw w) (w_regions w) false (w_rs w) (w_deleted w)) r br
-      | OFlush, _ | OReopen, _ | OBudget _, _ => mon w r br
+          mon (W (w_stores w) (w_lw w) (w_rw w) (w_regions w) (if Bool.eqb rs (w_rs w) || (match w_regions w with [] => true | _ => false end) then w_known w else false) rs (w_deleted w) (w_pending w)) r br
+      | OCrash, _ => mon (W (w_stores w) (w_lw w) (w_rw w) (w_regions w) false (w_rs w) (w_deleted w) []) r br
+      | OFlush, _ | OReopen, _ =>
+          mon (W (w_stores w) (w_lw w) (w_rw w) (w_regions w) (w_known w) (w_rs w) (w_deleted w) []) r br
+      | OBudget _, _ => mon w r br
       | OLoadRegions, BRegions st got | OLoadOnce, BRegions st got =>
           if negb (sorted_ids_b 0 got) then Some "C17:load:region-loaded-twice-or-out-of-order"
           else match st with
@@ -345,7 +355,7 @@ Fixpoint mon (w : want) (ops : list op) (obs_l : list obs) : option string :=
                      | None => mon w r br
                      end
                    else (* resynchronise on what the storage really holds *)
-                     mon (W (w_stores w) (w_lw w) (w_rw w) got true (w_rs w) []) r br
+                     mon (W (w_stores w) (w_lw w) (w_rw w) got true (w_rs w) [] (w_pending w)) r br
                | _ => mon w r br   (* a failed load promises nothing *)
                end
       | OLoadOnce, BSkipped => mon w r br
@@ -357,12 +367,13 @@ Fixpoint mon (w : want) (ops : list op) (obs_l : list obs) : option string :=
               | None =>
               if negb (sorted_ids_b 0 loaded) then Some "C17:load:region-loaded-twice-or-out-of-order"
               else if negb (pairwise_disjoint c) then Some "C17:prune:cache-overlaps"
-              else if negb (list_eqb item_eqb c (filter (fun it => negb (fst it =? max_id)) after))
-                   then Some "C17:prune:storage-differs-from-cache"
-              else if negb (list_eqb item_eqb c after) then Some "C17:prune:max-id-left-in-storage"
-              else mon (W (w_stores w) (w_lw w) (w_rw w) after true (w_rs w) []) r br
+              else if list_eqb item_eqb c after
+                   then mon (W (w_stores w) (w_lw w) (w_rw w) after true (w_rs w) [] (w_pending w)) r br
+              else if list_eqb item_eqb c (filter (fun it => negb (fst it =? max_id)) after)
+                   then Some "C17:prune:max-id-left-in-storage"
+              else Some "C17:prune:storage-differs-from-cache"
               end
-          | _ => mon (W (w_stores w) (w_lw w) (w_rw w) after false (w_rs w) []) r br
+          | _ => mon (W (w_stores w) (w_lw w) (w_rw w) after false (w_rs w) [] (w_pending w)) r br
           end
       | _, _ => Some "C17:unexpected-answer"
       end
